@@ -51,7 +51,10 @@ class Clause:
 class Contract:
   def __init__(self, target, cls):
     self.target = target
-    self.relpath, self.qual = target.split("::")
+    # "relpath::Qual.name#aspect": a further, independent contract on the same function (its own invariants and hooks;
+    # never used at call sites, which look up "relpath::Qual.name")
+    self.relpath, q = target.split("::")
+    self.qual, _, self.aspect = q.partition("#")
     g = lambda k, d: getattr(cls, k, d)
     self.name = cls.__name__
     self.params = dict(g("params", {}))
